@@ -12,6 +12,7 @@ import (
 
 	"github.com/youchainhq/go-youchain/common"
 	"github.com/youchainhq/go-youchain/consensus"
+	"github.com/youchainhq/go-youchain/core/state"
 	"github.com/youchainhq/go-youchain/core/types"
 	"github.com/youchainhq/go-youchain/crypto"
 	secp256k1VRF "github.com/youchainhq/go-youchain/crypto/vrf/secp256k1"
@@ -121,4 +122,17 @@ func (v *VerifC04Proposal) BlockMessage(pub *ecdsa.PublicKey, block *types.Block
 // Best is the real blockhashWithMaxPriority: what the voter will vote for in (round, roundIndex).
 func (v *VerifC04Proposal) Best(round *big.Int, roundIndex uint32) (priority, blockHash common.Hash, ok bool) {
 	return v.P.blockhashWithMaxPriority(round, roundIndex)
+}
+
+// ---- the header-side re-verification of stored vote credentials -------------------------------------------------------
+
+// VerifyVotes is the real Server.verifyVotes (what VerifyHeader runs over the Precommit / Certificate votes stored in a
+// header), with plain-signature votes (EnableBls off in a copy of the parameters): look-back validator reader, header
+// hash, seed, position and committee are the caller's.
+func (w *VerifC04Server) VerifyVotes(lbVld state.ValidatorReader, headerHash []byte, seed common.Hash, round *big.Int, roundIndex uint32,
+	committee uint64, votes []SingleVote, step uint32, kind params.ValidatorKind, isPos bool) error {
+	cp := *w.S.CurrentCaravelParams()
+	cp.EnableBls = false
+	cd := &commonData{cp: &cp, lbVld: lbVld, headerHash: headerHash, seed: seed, round: round, roundIndex: roundIndex, validatorThreshold: committee}
+	return w.S.verifyVotes(cd, votes, nil, step, kind, isPos)
 }
